@@ -237,7 +237,8 @@ CAUSES = ('f_wrong_class', 'f_wrong_name', 'f_foreign_elem', 'f_level_add', 'f_l
           'f_version_set', 'f_card', 'f_badvalue', 'f_del_absent', 'f_delidx_absent', 'f_dtchange', 'f_value_wrongname',
           'f_children_bad', 'f_settype', 'f_deep_level_set', 'f_deep_version_set', 'f_parent_ctor_level',
           'f_parent_ctor_version', 'f_parent_assign_level', 'f_parent_assign_version', 'f_children_keep_bad',
-          'f_proxy_badvalue', 'f_dtobject_complex', 'f_children_moved_then_bad', 'f_stale_handle_badvalue')
+          'f_proxy_badvalue', 'f_dtobject_complex', 'f_children_moved_then_bad', 'f_stale_handle_badvalue', 'f_proxy_wrongtype_value',
+          'f_value_other_datatype_object')
 
 
 def floors(tier, m):
